@@ -481,6 +481,41 @@ func decodePoll(body []byte) ([]wsMsg, bool) {
 // wsMsgDriver: C11. Random message histories in both directions with random batching.
 func wsMsgDriver(a *Args) {
 	res := a.Res
+	if a.Mode == "slow-child" {
+		// scenarios that consist mostly of waiting, each in its own process next to the histories
+		be := newWsBackend()
+		defer be.srv.Close()
+		if hx.Child() == "stall" {
+			wsStallScenario(res, be)
+		} else if ms, err := strconv.Atoi(hx.Child()); err == nil {
+			wsQuietScenario(res, be, time.Duration(ms)*time.Millisecond)
+		}
+		return
+	}
+	slowDone := make(chan []hx.ChildResult, 1)
+	go func() {
+		names := []string{"stall"}
+		for _, d := range pauseClasses() {
+			names = append(names, fmt.Sprint(d.Milliseconds()+1000))
+		}
+		slowDone <- hx.RunChildren("wsmsg", "slow-child", names, nil, 10*time.Minute)
+	}()
+	defer func() {
+		for _, c := range <-slowDone {
+			if c.Err != nil {
+				res.Bad("slow websocket scenario %s did not run: %v: %s", c.Name, c.Err, headOf([]byte(c.Out), 600))
+			}
+			res.Case("slow:"+c.Name, map[string]interface{}{"scenario": c.Name})
+			for _, ln := range strings.Split(c.Out, "\n") {
+				if strings.HasPrefix(ln, "STALL ") {
+					var m map[string]interface{}
+					if json.Unmarshal([]byte(strings.TrimPrefix(ln, "STALL ")), &m) == nil {
+						res.Extra["stalled_backend_case"] = m
+					}
+				}
+			}
+		}
+	}()
 	if a.Cases != "" {
 		if loadWsCases(a) == nil {
 			return
@@ -590,54 +625,115 @@ func wsMsgDriver(a *Args) {
 		cancel()
 		res.Case(strings.Join(shape, ","), map[string]interface{}{"history": shape, "client_msgs": cN, "server_msgs": sN, "injection": inject})
 	}
-	// a backend that does not read for 6.5 s while the whole pipeline towards it is full (kernel buffers, the
-	// message being written and the ten queued ones), and a client that closes meanwhile: what was accepted
-	// is delivered, in order, before the close.  How much the kernel absorbs is measured first, so that the
-	// data post fills the pipeline exactly and still returns at once.
-	{
-		hx.Reset("wsmsg-stall", "wsmsg:backend-stalls-then-close")
-		shim, cancel := newShim(be.host(), false)
-		label := "stall-1"
-		absorbed := loopbackAbsorbs()
-		size := 1 << 20
-		frac := float64(absorbed%(size+16)) / float64(size+16)
-		if frac < 0.2 || frac > 0.8 {
-			size = size * 3 / 4
-		}
-		count := absorbed/(size+16) + 11
-		sid, st := shim.open(be, label, "1")
-		var dataMs, closeMs int64
-		if st == 200 {
-			var batch []map[string]interface{}
-			be.mu.Lock()
-			for n := 1; n <= count; n++ {
-				m := wsMsg{websocket.TextMessage, append([]byte(fmt.Sprintf("%d:", n)), bytes.Repeat([]byte{byte('a' + n%26)}, size-8)...)}
-				be.sentC[label][n] = m
-				batch = append(batch, encodeMsg(sid, m))
-			}
-			be.mu.Unlock()
-			hx.Emit("DataBegin", "sid", sid, "from", 1, "to", count)
-			body, _ := json.Marshal(batch)
-			t0 := time.Now()
-			code, _ := shim.call("data", string(body), "1")
-			dataMs = time.Since(t0).Milliseconds()
-			hx.Emit("Call", "kind", "data", "arg", "valid", "sid", sid, "status", code)
-			hx.Emit("CloseBegin", "sid", sid)
-			t0 = time.Now()
-			code, _ = shim.call("close", fmt.Sprintf(`{"id":%q}`, sid), "1")
-			closeMs = time.Since(t0).Milliseconds()
-			hx.Emit("Call", "kind", "close", "arg", "valid", "sid", sid, "status", code)
-			for i := 0; i < 2400 && !be.sawClose(label); i++ {
-				time.Sleep(5 * time.Millisecond)
-			}
-		}
-		hx.Emit("Final", "panicked", shim.panicked)
-		cancel()
-		stall := map[string]interface{}{"messages": count, "message_bytes": size, "stall_ms": 6500,
-			"kernel_absorbs_bytes": absorbed, "data_post_ms": dataMs, "close_post_ms": closeMs}
-		res.Case("stall:pipeline-full-then-close", stall)
-		res.Extra["stalled_backend_case"] = stall
+}
+
+// wsStallScenario: a backend that does not read for 6.5 s while the whole pipeline towards it is full (kernel
+// buffers, the message being written and the ten queued ones), and a client that closes meanwhile: what was
+// accepted is delivered, in order, before the close.  How much the kernel absorbs is measured first, so that the
+// data post fills the pipeline exactly and still returns at once.
+func wsStallScenario(res *hx.Result, be *wsBackend) {
+	hx.Reset("wsmsg-stall", "wsmsg:backend-stalls-then-close")
+	shim, cancel := newShim(be.host(), false)
+	label := "stall-1"
+	absorbed := loopbackAbsorbs()
+	size := 1 << 20
+	frac := float64(absorbed%(size+16)) / float64(size+16)
+	if frac < 0.2 || frac > 0.8 {
+		size = size * 3 / 4
 	}
+	count := absorbed/(size+16) + 11
+	sid, st := shim.open(be, label, "1")
+	var dataMs, closeMs int64
+	if st == 200 {
+		var batch []map[string]interface{}
+		be.mu.Lock()
+		for n := 1; n <= count; n++ {
+			m := wsMsg{websocket.TextMessage, append([]byte(fmt.Sprintf("%d:", n)), bytes.Repeat([]byte{byte('a' + n%26)}, size-8)...)}
+			be.sentC[label][n] = m
+			batch = append(batch, encodeMsg(sid, m))
+		}
+		be.mu.Unlock()
+		hx.Emit("DataBegin", "sid", sid, "from", 1, "to", count)
+		body, _ := json.Marshal(batch)
+		t0 := time.Now()
+		code, _ := shim.call("data", string(body), "1")
+		dataMs = time.Since(t0).Milliseconds()
+		hx.Emit("Call", "kind", "data", "arg", "valid", "sid", sid, "status", code)
+		hx.Emit("CloseBegin", "sid", sid)
+		t0 = time.Now()
+		code, _ = shim.call("close", fmt.Sprintf(`{"id":%q}`, sid), "1")
+		closeMs = time.Since(t0).Milliseconds()
+		hx.Emit("Call", "kind", "close", "arg", "valid", "sid", sid, "status", code)
+		for i := 0; i < 2400 && !be.sawClose(label); i++ {
+			time.Sleep(5 * time.Millisecond)
+		}
+	}
+	hx.Emit("Final", "panicked", shim.panicked)
+	cancel()
+	stall := map[string]interface{}{"messages": count, "message_bytes": size, "stall_ms": 6500,
+		"kernel_absorbs_bytes": absorbed, "data_post_ms": dataMs, "close_post_ms": closeMs}
+	res.Case("stall:pipeline-full-then-close", stall)
+	res.Extra["stalled_backend_case"] = stall
+	if sb, err := json.Marshal(stall); err == nil {
+		fmt.Println("STALL " + string(sb)) // (for the parent: a child's result file is not kept)
+	}
+}
+
+// wsQuietScenario: a session that is idle for longer than common time-outs and then used again in both directions.
+func wsQuietScenario(res *hx.Result, be *wsBackend, quiet time.Duration) {
+	rng := hx.Rand("wsquiet")
+	hx.Reset(fmt.Sprintf("wsmsg-quiet-%d", quiet.Milliseconds()), "wsmsg:idle-then-used-again")
+	shim, cancel := newShim(be.host(), false)
+	defer cancel()
+	label := fmt.Sprintf("quiet%d", quiet.Milliseconds())
+	sid, st := shim.open(be, label, "1")
+	if st != 200 {
+		hx.Emit("Final", "panicked", shim.panicked)
+		return
+	}
+	cN, sN, polled := 0, 0, 0
+	sent := map[int]wsMsg{}
+	round := func(k int) {
+		var batch []map[string]interface{}
+		from := cN + 1
+		be.mu.Lock()
+		for i := 0; i < k; i++ {
+			cN++
+			m := randomMsg(rng, cN, false, false, 0)
+			be.sentC[label][cN] = m
+			batch = append(batch, encodeMsg(sid, m))
+		}
+		be.mu.Unlock()
+		hx.Emit("DataBegin", "sid", sid, "from", from, "to", cN)
+		body, _ := json.Marshal(batch)
+		code, _ := shim.call("data", string(body), "1")
+		hx.Emit("Call", "kind", "data", "arg", "valid", "sid", sid, "status", code)
+		for i := 0; i < k; i++ {
+			sN++
+			m := randomMsg(rng, sN, false, false, 1)
+			sent[sN] = m
+			be.send(label, sN, m)
+		}
+		for polled < sN {
+			before := polled
+			polled = pollOnce(shim, sid, sent, polled)
+			if polled == before {
+				break
+			}
+		}
+	}
+	round(2)
+	time.Sleep(quiet)
+	round(1)
+	time.Sleep(quiet / 3) // (a moment that is neither right after the open nor right after a period)
+	round(3)
+	time.Sleep(30 * time.Millisecond)
+	hx.Emit("CloseBegin", "sid", sid)
+	code, _ := shim.call("close", fmt.Sprintf(`{"id":%q}`, sid), "1")
+	hx.Emit("Call", "kind", "close", "arg", "valid", "sid", sid, "status", code)
+	time.Sleep(30 * time.Millisecond)
+	hx.Emit("Final", "panicked", shim.panicked)
+	res.Case("quiet:"+label, map[string]interface{}{"idle_ms": quiet.Milliseconds(), "client_msgs": cN, "server_msgs": sN})
 }
 
 // loopbackAbsorbs measures how many bytes a loopback TCP connection takes from a writer whose peer does not
